@@ -61,6 +61,8 @@ def run_ledger_check(prop, tier, seed):
     profiles = list(LEDGER_PROFILES[prop])
     if prop == 'C03':
         profiles.append((checks.gen_machines(tier, seed), FXR, 60, 400))
+    if prop == 'C17':
+        profiles.append((checks.gen_machines(tier, seed), FXR, 100, 400))      # generated machines carry flags at every depth
     for machines, kw, nq, nt in profiles:
         for m in machines:
             if m not in hs:
